@@ -1038,3 +1038,48 @@ Example C06_all_inhabited :
     /\ set_fragment true u2 (Some (B "g")) = Some u3 /\ ReachC6 true ex_hp ex_hp ex_hd u3
     /\ ser u3 = B "a://x.y:80/c?q#g".
 Proof. split; [exact (proj1 ex_host_RT)|]. split; [exact (proj2 ex_host_RT) | exact reach6_inhabited]. Qed.
+
+(* 22. WHOLE-URL parser agreement for the REMOVAL calls set_fragment(None), set_query(None), set_port(None): the result
+   is canonical (C02's set_*_Canon), its serialization IS the old serialization with the component and its delimiter cut
+   out (cut_fragment / cut_query / cut_port, read off the record), and Parser::parse_url on that text returns exactly the
+   setter's record.  Premise for the first two: the cut text does not end in a C0 control or space - this leaves out
+   exactly the documented coupling "removing the last of query / fragment from an opaque path strips its trailing
+   spaces" (C06_frame states it; Url::parse would trim them from its input too).  set_port(None): no premise.
+   NOT covered: set_password(None / ""), set_host(None) (C06_couple / C06_frame state their frame and couplings). *)
+From RU Require Import Proofs.C06_SpliceNone.
+
+Theorem C06_splice_agreement_remove_fragment : forall dbg hp hpo hd u u', HostRT hp hpo hd -> Canon hp hpo hd u ->
+  first_ok (rev (cut_fragment u)) -> set_fragment dbg u None = Some u' -> nlen (ser u') <= U32_MAX_P ->
+  ser u' = cut_fragment u /\ parse_url dbg hp hpo hd None None (cut_fragment u) = POk u'.
+Proof. intros dbg hp hpo hd u u' HRT. exact (splice_agreement_remove_fragment dbg hp hpo hd HRT u u'). Qed.
+Check C06_splice_agreement_remove_fragment : forall dbg hp hpo hd u u', HostRT hp hpo hd -> Canon hp hpo hd u ->
+  first_ok (rev (cut_fragment u)) -> set_fragment dbg u None = Some u' -> nlen (ser u') <= U32_MAX_P ->
+  ser u' = cut_fragment u /\ parse_url dbg hp hpo hd None None (cut_fragment u) = POk u'.
+Print Assumptions C06_splice_agreement_remove_fragment.
+
+Theorem C06_splice_agreement_remove_query : forall dbg hp hpo hd u u', HostRT hp hpo hd -> Canon hp hpo hd u ->
+  first_ok (rev (cut_query u)) -> set_query dbg u None = Some u' -> nlen (ser u') <= U32_MAX_P ->
+  ser u' = cut_query u /\ parse_url dbg hp hpo hd None None (cut_query u) = POk u'.
+Proof. intros dbg hp hpo hd u u' HRT. exact (splice_agreement_remove_query dbg hp hpo hd HRT u u'). Qed.
+Check C06_splice_agreement_remove_query : forall dbg hp hpo hd u u', HostRT hp hpo hd -> Canon hp hpo hd u ->
+  first_ok (rev (cut_query u)) -> set_query dbg u None = Some u' -> nlen (ser u') <= U32_MAX_P ->
+  ser u' = cut_query u /\ parse_url dbg hp hpo hd None None (cut_query u) = POk u'.
+Print Assumptions C06_splice_agreement_remove_query.
+
+Theorem C06_splice_agreement_remove_port : forall dbg hp hpo hd u u', HostRT hp hpo hd -> Canon hp hpo hd u ->
+  set_port dbg u None = Some (u', SOk) -> nlen (ser u') <= U32_MAX_P ->
+  ser u' = cut_port u /\ parse_url dbg hp hpo hd None None (cut_port u) = POk u'.
+Proof. intros dbg hp hpo hd u u' HRT. exact (splice_agreement_remove_port dbg hp hpo hd HRT u u'). Qed.
+Check C06_splice_agreement_remove_port : forall dbg hp hpo hd u u', HostRT hp hpo hd -> Canon hp hpo hd u ->
+  set_port dbg u None = Some (u', SOk) -> nlen (ser u') <= U32_MAX_P ->
+  ser u' = cut_port u /\ parse_url dbg hp hpo hd None None (cut_port u) = POk u'.
+Print Assumptions C06_splice_agreement_remove_port.
+
+(* the hypotheses are met on "a://h:80/p?q#f": the cut texts are "a://h:80/p?q", "a://h:80/p#f", "a://h/p?q#f" *)
+Example C06_splice_agreement_remove_inhabited :
+  (exists u', set_fragment true qx_u None = Some u' /\ cut_fragment qx_u = B "a://h:80/p?q" /\ first_ok (rev (cut_fragment qx_u)))
+  /\ (exists u', set_query true qx_u None = Some u' /\ cut_query qx_u = B "a://h:80/p#f" /\ first_ok (rev (cut_query qx_u)))
+  /\ (exists u', set_port true qx_u None = Some (u', SOk) /\ cut_port qx_u = B "a://h/p?q#f").
+Proof.
+  split; [|split]; eexists; (split; [vm_compute; reflexivity|]); repeat split; vm_compute; reflexivity.
+Qed.
